@@ -59,6 +59,15 @@ def compile_module(mod, flags=drv.DEFAULT_FLAGS, variant="asan", acc=None, **kw)
         finally:
             import shutil
             shutil.rmtree(d, ignore_errors=True)
+    if not bad and first.stage.startswith("cc "):
+        # the C compiler refused a generated file: blame the type the file belongs to
+        import re
+        names = {n for n, _ in mod.types}
+        for fn in set(re.findall(r"gen/([A-Za-z0-9_-]+)\.[ch]", first.output)) | {first.stage[3:-2]}:
+            if fn in names:
+                bad.add(fn)
+                rejected.append({"type": fn, "stage": first.stage, "rc": first.rc, "text": mod.subset([fn]).render(),
+                                 "output": first.output[-800:]})
     if not bad:
         rejected.append({"type": "*", "stage": first.stage, "rc": first.rc, "text": mod.render(),
                          "output": first.output[-1500:]})
@@ -190,6 +199,29 @@ def type_features(mod, t, _seen=None, depth=0):
         if t.elem:
             walk(t.elem, d + 1)
     walk(t, depth, True)
+    # longest tag chain anywhere in the closure (the DER encoder has a system limit of 4 tags per type)
+    try:
+        from . import ref_ber
+        seen = set()
+
+        def chains(t):
+            if t.kind == "REF":
+                if t.ref in seen:
+                    return
+                seen.add(t.ref)
+            if len(ref_ber.tagchain(mod, t)) >= 4:
+                out.add("tagchain>=4")
+            rt = mod.resolve(t)
+            if rt.kind in ("SEQUENCE", "SET", "CHOICE"):
+                for m, ch in zip(rt.members, ref_ber.member_chains(mod, rt)):
+                    if len(ch) >= 4:
+                        out.add("tagchain>=4")
+                    chains(m.type)
+            elif rt.elem is not None:
+                chains(rt.elem)
+        chains(t)
+    except (KeyError, ValueError):
+        pass
     return out
 
 
@@ -241,6 +273,15 @@ def value_features(mod, t, v, out=None):
                     out.add("choice.ext-alt")
                 value_features(mod, m.type, v[1], out)
     elif k in ("SEQOF", "SETOF"):
+        if len(v) > 200:
+            try:
+                from . import ref_per
+                b = ref_per.Bits()
+                ref_per.enc(mod, rt.elem, v[0], b)
+                if b.n == 0:
+                    out.add("zero-width>200")
+            except Exception:
+                pass
         for x in v[:50]:
             value_features(mod, rt.elem, x, out)
     return out
